@@ -212,6 +212,42 @@ pub fn random(ctx: &mut Ctx, pool: &Pool, per_shard: usize, max_depth: usize, ju
     ctx.rng = rng;
 }
 
+/// Depth-1 cases over RANDOM operands (not pool boundaries): every unary built-in and binary operator with
+/// operands of the types it supports (plus the occasional mismatch), `per_shard` cases.
+pub fn random_operands(ctx: &mut Ctx, per_shard: usize, judge: &mut dyn FnMut(&mut Ctx, Case)) {
+    use crate::pools::{random_value, TYPES};
+    let mut rng = ctx.rng.clone();
+    let none = Value::None;
+    for i in 0..per_shard {
+        if i % 3 == 0 {
+            let (name, ctor) = UNARY[rng.below(UNARY.len())];
+            let t = TYPES[rng.below(9)];
+            let v = random_value(&mut rng, t);
+            let e = ctor(Expr::value(v.clone()));
+            judge(ctx, Case { expr: &e, facts: &none, cell: format!("{name}({})", ty(&v)), family: "random-operands-unary" });
+        } else {
+            let (name, ctor) = BINARY[rng.below(BINARY.len())];
+            let a = TYPES[rng.below(9)];
+            // same type three times out of four (that is where the supported cells are), sometimes related values
+            let b = if rng.chance(3, 4) { a } else { TYPES[rng.below(9)] };
+            let x = random_value(&mut rng, a);
+            let y = match rng.below(6) {
+                0 => x.clone(),
+                1 => match (&x, b) {
+                    (Value::Int(n), "Int") => Value::Int(n.wrapping_add(rng.range(-2, 2) as i128)),
+                    (Value::String(s), "String") => Value::String(s.chars().skip(rng.below(s.chars().count().max(1))).take(1 + rng.below(5)).collect()),
+                    (Value::Vec(v), _) if !v.is_empty() => v[rng.below(v.len())].clone(),
+                    _ => random_value(&mut rng, b),
+                },
+                _ => random_value(&mut rng, b),
+            };
+            let e = ctor(Expr::value(x.clone()), Expr::value(y.clone()));
+            judge(ctx, Case { expr: &e, facts: &none, cell: format!("{name}({},{})", ty(&x), ty(&y)), family: "random-operands-binary" });
+        }
+    }
+    ctx.rng = rng;
+}
+
 pub fn the_pool() -> Pool {
     pool()
 }
